@@ -345,7 +345,7 @@ pub fn phases(cfg: &Cfg) -> Vec<Box<dyn Phase>> {
             trees: std::collections::HashMap::new(),
         }),
         Box::new(Chains {
-            n: cfg.n(200_000, 2_000_000),
+            n: cfg.n(200_000, 20_000_000),
         }),
     ]
 }
